@@ -77,6 +77,7 @@ static void tok(const char* fmt, ...) {
   if (quiet && fmt[0] != '!') return;
   flush_y();
   va_start(ap, fmt); vprintf(fmt, ap); va_end(ap); putchar(' ');
+  if (fmt[0] == '!') fflush(stdout);     /* a verdict of the lifecycle monitor survives a later abort */
 }
 static void tok_then_y(const char* fmt, ...) {   /* the echo of a submit, then what its syscall finished */
   va_list ap;
@@ -533,6 +534,9 @@ static void op_start(int i, int arg) {
             rc = uv_signal_start((uv_signal_t*) h->uv, signal_cb, h->signum);
             if (rc == 0) { h->sigact = 1; tok("B%d,6", i); } break;
   case 'e': if (h->watch) break;
+            if (arg == 9) {   /* a path that does not exist: the start fails, the handle stays usable */
+              rc = uv_fs_event_start((uv_fs_event_t*) h->uv, fsev_cb, "no-such-dir/no-such-file", 0); break;
+            }
             rc = uv_fs_event_start((uv_fs_event_t*) h->uv, fsev_cb, h->path, 0);
             if (rc == 0) { h->watch = 1; tok("B%d,4", i); } break;
   case 'f': if (arg) close(open(h->path, O_CREAT | O_WRONLY, 0600));
@@ -798,6 +802,84 @@ static void op_close(int i) {
   in_close_call--;
 }
 
+/* ---------------------------------------------------------------- failed initialisations
+ * i<code>: an initialisation that must fail.  The handle block is not entered into the handle table (it
+ * never became a handle); under AddressSanitizer it is freed right after the failed call, so any later touch
+ * by libuv is a report; without ASan it is kept until the end of the case so that a block that stayed linked
+ * shows up deterministically in the census and in uv_loop_close().  After each such call, and before the
+ * final uv_loop_close(), the census checks that the loop's handle queue holds exactly the live handles. */
+#if defined(__SANITIZE_ADDRESS__)
+#define FAILED_BLOCK_FREE(p) free(p)
+#else
+#define FAILED_BLOCK_FREE(p) ((void) (p))
+#endif
+static struct { char* p; size_t n; char code[4]; } FB[64]; static int nfb;
+struct census { int visited, unknown; int seen[MAXH]; };
+static void walk_cb(uv_handle_t* h, void* arg) {
+  struct census* c = arg; int i;
+  c->visited++;
+  if (h == (uv_handle_t*) &mark_prepare || h == (uv_handle_t*) &mark_check) return;
+  for (i = 0; i < nh; i++) if (HT[i].inited && !HT[i].closed && HT[i].uv == h) { c->seen[i] = 1; return; }
+  c->unknown++;
+}
+static void census(void) {
+  struct uv__queue* q; struct census c; int i, k, missing = 0;
+  /* first by hand, comparing addresses only: is a block of a failed init still linked? */
+  for (q = loop->handle_queue.next; q != &loop->handle_queue; q = q->next) {
+    char* a = (char*) q;
+    for (k = 0; k < nfb; k++)
+      if (a >= FB[k].p && a < FB[k].p + FB[k].n) { tok("!failed-init-linked%s", FB[k].code); return; }
+  }
+  memset(&c, 0, sizeof c);
+  uv_walk(loop, walk_cb, &c);
+  for (i = 0; i < nh; i++) if (HT[i].inited && !HT[i].closed && !c.seen[i]) missing++;
+  if (c.unknown) tok("!walk-unknown%d", c.unknown);
+  if (missing) tok("!walk-missing%d", missing);
+  tok(".w%d", c.visited);
+}
+static void op_fail_init(const char* code) {
+  size_t n = 0; char* p; int rc = 0, fd;
+  if (nfb >= 64) return;
+  if (code[0] == 'T') n = sizeof(uv_tcp_t); else if (code[0] == 'U') n = sizeof(uv_udp_t);
+  else if (code[0] == 'o') n = sizeof(uv_poll_t); else if (code[0] == 'y') n = sizeof(uv_tty_t);
+  else return;
+  p = calloc(1, n);
+  if (!strcmp(code, "T4")) { fail_socket = 1; rc = uv_tcp_init_ex(loop, (uv_tcp_t*) p, AF_INET); }
+  else if (!strcmp(code, "T6")) { fail_socket = 1; rc = uv_tcp_init_ex(loop, (uv_tcp_t*) p, AF_INET6); }
+  else if (!strcmp(code, "Tf")) rc = uv_tcp_init_ex(loop, (uv_tcp_t*) p, AF_INET | 0x100);
+  else if (!strcmp(code, "Td")) rc = uv_tcp_init_ex(loop, (uv_tcp_t*) p, AF_UNIX);
+  else if (!strcmp(code, "U4")) { fail_socket = 1; rc = uv_udp_init_ex(loop, (uv_udp_t*) p, AF_INET); }
+  else if (!strcmp(code, "Uf")) rc = uv_udp_init_ex(loop, (uv_udp_t*) p, AF_INET | 0x1000);
+  else if (!strcmp(code, "oc")) { fd = open("/dev/null", O_RDONLY); close(fd); rc = uv_poll_init(loop, (uv_poll_t*) p, fd); }
+  else if (!strcmp(code, "or")) { fd = open("/dev/null", O_RDONLY); rc = uv_poll_init(loop, (uv_poll_t*) p, fd); close(fd); }
+  else if (!strcmp(code, "oe")) rc = uv_poll_init(loop, (uv_poll_t*) p, loop->signal_pipefd[0]);
+  else if (!strcmp(code, "yc")) { fd = open("/dev/null", O_RDONLY); close(fd); rc = uv_tty_init(loop, (uv_tty_t*) p, fd, 0); }
+  else if (!strcmp(code, "yf")) { fd = open("/dev/null", O_RDONLY); rc = uv_tty_init(loop, (uv_tty_t*) p, fd, 0); close(fd); }
+  else { free(p); return; }
+  fail_socket = 0;
+  if (rc == 0) {               /* it did not fail: harness problem, keep the block (it is a live handle now) */
+    tok("!init-did-not-fail-%s", code); return;
+  }
+  tok(".fi%s:%d", code, rc);
+  FB[nfb].p = p; FB[nfb].n = n; snprintf(FB[nfb].code, sizeof FB[nfb].code, "%s", code); nfb++;
+  FAILED_BLOCK_FREE(p);
+  census();
+}
+/* uv_tcp_open / uv_pipe_open / uv_udp_open with a closed descriptor: fails, the handle stays a live handle */
+static void op_open_bad(int i) {
+  struct H* h; int fd, rc = 0;
+  if (!live(i)) return;
+  h = &HT[i];
+  if (h->fd >= 0) return;
+  fd = open("/dev/null", O_RDONLY); close(fd);
+  if (h->kind == 'T') rc = uv_tcp_open((uv_tcp_t*) h->uv, fd);
+  else if (h->kind == 'P') rc = uv_pipe_open((uv_pipe_t*) h->uv, fd);
+  else if (h->kind == 'U') rc = uv_udp_open((uv_udp_t*) h->uv, fd);
+  else return;
+  if (rc == 0) tok("!open-did-not-fail%d", i); else tok(".open%d", rc);
+  census();
+}
+
 static void op_kill(int i) {
   struct H* h;
   if (i < 0 || i >= nh) return;
@@ -829,6 +911,8 @@ static void do_ops(const char* ops, int in_cb) {
     case 'e': op_rawdrain(a); break;
     case 'v': op_rawsend(a); break;
     case 'z': if (a >= 0 && a < nh) HT[a].blocked = b > 0; break;
+    case 'i': op_fail_init(t + 1); break;
+    case 'p': op_open_bad(a); break;
     case 'f': if (live(a) || (a >= 0 && a < nh && HT[a].inited && !HT[a].closed)) uv_ref(HT[a].uv); break;
     case 'g': if (live(a) || (a >= 0 && a < nh && HT[a].inited && !HT[a].closed)) uv_unref(HT[a].uv); break;
     case 'Q':
@@ -931,6 +1015,7 @@ static int run_case(char* line) {
   for (i = 0; i < nh; i++)
     if (HT[i].inited && !HT[i].closed) tok("!never-closed%d", i);
   for (i = 0; i < nr; i++) if (!RT[i].done) tok("!never-called%d", RT[i].id);
+  census();                                              /* quiet: only a verdict is printed */
   if (obs_mode) { quiet = 0; emit_obs(); quiet = 1; }   /* the state uv_loop_close() is about to see */
   rc = uv_loop_close(loop);
   if (rc) tok("!loop_close%d", rc);
